@@ -19,7 +19,7 @@ RUN_LIMIT_CPU_S = 600     # one run enumerates hundreds of fault positions in th
 BUDGET = {'quick': 25, 'thorough': 300}
 BLOCK = 8
 STREAM_ORDER = ['ops', 'guards', 'faults', 'chart', 'cfg']
-RULE = (common.GEN + 'the monitored chart sends events (with delays) and notifies, in a third of the runs it carries contracts that are checked; listeners read every documented attribute of every meta-event; in a third of the runs the monitored interpreter is a subclass of Interpreter with its own constructor and a property statechart is bound with the default interpreter_klass; in half of the runs the property statecharts arm a far-away timeout on themselves (a pending delayed internal event of their own); listeners: a plain recording callable (attach), a recording '
+RULE = (common.GEN + 'the monitored chart sends events (with delays) and notifies, in a third of the runs it carries contracts that are checked; listeners read every documented attribute of every meta-event; in a third of the runs the monitored interpreter is a subclass of Interpreter with its own constructor and a property statechart is bound with the default interpreter_klass; in half of the runs the property statecharts arm a far-away timeout on themselves (a pending delayed internal event of their own); listeners: a plain recording callable (attach), two recorders with value equality that compare equal when they are attached, a recording '
         'property statechart (bind_property_statechart, built through interpreter_klass so that it shares a recorder) and a tripwire property '
         'statechart that becomes final at its k-th meta-event. Run A (no tripwire): the stream both recorders saw must equal the stream derived '
         'from the returned micro steps, the property chart own clock must equal the monitored step time, and the macro steps must equal those '
@@ -126,6 +126,21 @@ class Plain:
         self.seen.append((norm(me.name, me.data), len(self.sim.P.log)))
 
 
+class EqRec:
+    """a recording listener with value equality (as a dataclass has): two fresh ones compare equal, they are still two
+    listeners and both are attached"""
+    __hash__ = None
+
+    def __init__(self):
+        self.seen = []
+
+    def __eq__(self, other):
+        return isinstance(other, EqRec) and self.seen == other.seen
+
+    def __call__(self, me):
+        self.seen.append(me.name)
+
+
 def derive(r, T):
     """documented meta-event stream of one execute_once call, from what it returned"""
     out = [('step started', (('time', float(T)),))]
@@ -220,6 +235,9 @@ def run(ch, tier):
     plain = Plain(a)
     q = Q()
     a.it.attach(plain)
+    twins_ = [EqRec(), EqRec()]
+    for t_ in twins_:
+        a.it.attach(t_)
     if cs.flag(1, 4):
         # deprecated but supported entry point: an already built interpreter is handed over and re-clocked
         res.stats['property_bound_through_deprecated_interpreter_argument'] += 1
@@ -284,6 +302,9 @@ def run(ch, tier):
                     x[1], x[0][0], float(r.T)), **ctx)
         pos = len(plain.seen)
         sigs.append((sig(r.ms), sorted(r.post), r.exc_name()))
+    if not (twins_[0].seen == twins_[1].seen == [x[0][0] for x in plain.seen]):
+        return res.fail('listener-left-out', 'three listeners were attached; the first saw %d meta-events, two recorders that compared equal '
+                        'when they were attached saw %d and %d' % (len(plain.seen), len(twins_[0].seen), len(twins_[1].seen)), chart=sp.describe())
     script = a.script
     L = list(a.P.log)
     n = len(plain.seen)
